@@ -161,6 +161,25 @@ func supervise(id, tier string) int {
 		fmt.Printf("  process died inside ion-go: %v\n", err)
 		return 1
 	}
+	if prefix := os.Getenv("VERIF_RACE_LOG"); prefix != "" {
+		// a data race can corrupt memory and bring the runtime itself down: the reports the race
+		// detector wrote before the crash decide
+		if _, races := mon.CollectRaces(prefix); len(races) > 0 {
+			vdir := filepath.Join(root(), "out", "violations", id)
+			os.MkdirAll(vdir, 0o755)
+			n := 0
+			for key, blk := range races {
+				path := filepath.Join(vdir, fmt.Sprintf("race%03d.json", n))
+				n++
+				rec := map[string]interface{}{"property": id, "sub_check": "data-race", "fingerprint": "data-race|" + key,
+					"detail": "race detector report (the checking process later died: " + fmt.Sprint(err) + "):\n" + blk, "seed": seed(), "tier": tier}
+				data, _ := json.MarshalIndent(rec, "", " ")
+				os.WriteFile(path, data, 0o644)
+				fmt.Printf("VIOLATION property=%s replay=%s\n  sub=data-race fingerprint=data-race|%s (process died afterwards)\n", id, path, key)
+			}
+			return 1
+		}
+	}
 	fmt.Printf("BROKEN property=%s: checking process died outside ion-go (%v)\n", id, err)
 	fmt.Fprintln(os.Stderr, tail)
 	return 2
